@@ -22,6 +22,8 @@ const fakeGoScript = `#!/bin/sh
 [ "$1" = tool ] && [ "$2" = objdump ] || { echo "fake go: unexpected $*" >&2; exit 64; }
 case "$FAKE_MODE" in
 emit)        cat "$FAKE_LISTING"; exit 0 ;;
+emit-lenient) # like the real tool: failures of its own writes (EFBIG, ENOSPC, SIGXFSZ) are ignored, exit status 0
+             trap '' XFSZ; cat "$FAKE_LISTING" 2>/dev/null; exit 0 ;;
 fail-before) exit 1 ;;
 fail-after)  cat "$FAKE_LISTING"; exit 1 ;;
 fail-partial) head -c "$FAKE_K" "$FAKE_LISTING"; exit 1 ;;
